@@ -508,11 +508,11 @@ def handleNth (j : Json) : Except String Json := do
     | "hyperu" => pure (dHyperu (l 0) (lv.drop 1) n)
     | "erf" => pure (dErf (l 0) (l 1) x n)
     | "erfi" => pure (dErfi (l 0) (l 1) x n)
-    | "arctan" => pure (dArctanQ (l 0) x n)
-    | "arcsin" => pure (dArcsinQ (l 0) x (l 1) n)
-    | "arccos" => pure (if n = 0 then l 0 else -(dArcsinQ 0 x (l 1) n))
-    | "arcsinh" => pure (dArcsinhQ (l 0) x (l 1) n)
-    | "arccosh" => pure (dArccoshQ (l 0) x (l 1) n)
+    | "arctan" => pure (dArctan (K := Rat) (l 0) x n)
+    | "arcsin" => pure (dArcsin (K := Rat) (l 0) x (l 1) n)
+    | "arccos" => pure (if n = 0 then l 0 else -(dArcsin (K := Rat) 0 x (l 1) n))
+    | "arcsinh" => pure (dArcsinh (K := Rat) (l 0) x (l 1) n)
+    | "arccosh" => pure (dArccosh (K := Rat) (l 0) x (l 1) n)
     | _ => throw s!"bad-fn {fn}"
   pure (Json.mkObj [("r", Json.str (showRat r))])
 
